@@ -485,6 +485,9 @@ var Prop = &harness.Prop{
 			u = append(u, mitmUnit(s, false), mitmUnit(s, true))
 		}
 		u = append(u, tlsMitmUnit(true), tlsMitmUnit(false))
+		for _, s := range suites {
+			u = append(u, refServerUnit(s), refClientUnit(s))
+		}
 		return u
 	},
 }
